@@ -9,8 +9,8 @@
 (* nothing / its first choice / its first two choices taken (c0, c1, c2), as they are, upper-    *)
 (* cased and lower-cased, from the request itself, and (batches) from 'id' and from what the     *)
 (* reference solution picks for the whole batch.                                                 *)
-(* The input space is written out as JSON (with Ref's answer, for a coverage figure only) so     *)
-(* that the harness runs the real functions on exactly the inputs TLC enumerated.                *)
+(* The input space is also written out as JSON (with Ref's answer, for a coverage figure only)   *)
+(* so that the harness runs the real functions on exactly the inputs TLC enumerated.             *)
 EXTENDS Ident, TLC, Json, IOUtils, SequencesExt, FiniteSetsExt
 CONSTANTS MaxLen, ListArity
 
@@ -132,20 +132,33 @@ AvoidList(rs) ==
            THEN {{Lower(c0)}, {c0, c1}, {c1, IdName}, {o[k] : k \in {Len(o)} \cap DOMAIN o}, all}
            ELSE {})
 
-Inputs ==
-  UNION {{[fn |-> fn, reqs |-> <<r>>, avoid |-> A] : A \in AvoidSingle(fn, r)} :
-           <<fn, r>> \in {"table", "col"} \X SingleReqs}
-  \cup
-  UNION {{[fn |-> "list", reqs |-> rs, avoid |-> A] : A \in AvoidList(rs)} :
-           rs \in UNION {[1..n -> ListReqs] : n \in 0..ListArity}}
+SinglePairs == {"table", "col"} \X SingleReqs
+ListsOf(n)  == [1..n -> ListReqs]
+
+SingleIn(fn, r, A) == [fn |-> fn, reqs |-> <<r>>, avoid |-> A]
+ListIn(rs, A)      == [fn |-> "list", reqs |-> rs, avoid |-> A]
+
+\* The input space is enumerated by nested quantifiers (one initial state per input) rather than built
+\* as one set: TLC's UNION / \cup over sets of ~10^5 records is quadratic.
+VARIABLE input
+Init ==
+  \/ \E p \in SinglePairs : \E A \in AvoidSingle(p[1], p[2]) : input = SingleIn(p[1], p[2], A)
+  \/ \E n \in 0..ListArity : \E rs \in ListsOf(n) : \E A \in AvoidList(rs) : input = ListIn(rs, A)
+Next == UNCHANGED input
+SpecSane == Ok(input, Ref(input, Decomp))
+
+\* The same space as JSON, grouped by request:  [fn, reqs, avoids |-> <<avoid set as sequence, ...>>,
+\* refs |-> <<Ref's answer for that avoid set, ...>>]; the harness unpacks group g into the inputs
+\* [fn, reqs, avoid |-> g.avoids[k], ref |-> g.refs[k]] and checks their number against TLC's state count.
+Group(fn, reqs, As) ==
+  LET avs == SetToSeq(As)
+  IN [fn |-> fn, reqs |-> reqs,
+      avoids |-> [k \in 1..Len(avs) |-> SetToSeq(avs[k])],
+      refs   |-> [k \in 1..Len(avs) |-> Ref([fn |-> fn, reqs |-> reqs, avoid |-> avs[k]], Decomp)]]
 
 ASSUME /\ "OUT_FILE" \in DOMAIN IOEnv
        => JsonSerialize(IOEnv.OUT_FILE,
-            SetToSeq({[fn |-> in.fn, reqs |-> in.reqs, avoid |-> SetToSeq(in.avoid),
-                       ref |-> Ref(in, Decomp)] : in \in Inputs}))
-
-VARIABLE input
-Init == input \in Inputs
-Next == UNCHANGED input
-SpecSane == Ok(input, Ref(input, Decomp))
+            [singles |-> SetToSeq({Group(p[1], <<p[2]>>, AvoidSingle(p[1], p[2])) : p \in SinglePairs}),
+             lists   |-> [m \in 1..(ListArity + 1) |->
+                            SetToSeq({Group("list", rs, AvoidList(rs)) : rs \in ListsOf(m - 1)})]])
 =============================================================================
